@@ -177,6 +177,9 @@ func cmdCheck(args []string) int {
 	hdirFlag := fs.String("hdir", "", "harness directory (default /verif/harness/<prop>)")
 	verbose := fs.Bool("v", false, "verbose")
 	fs.Parse(args)
+	if os.Getenv("GOSYM_NO_EVIDENCE") != "" {
+		*noEvidence = true
+	}
 	if *tier == "" {
 		*tier = os.Getenv("VERIF_TIER")
 	}
